@@ -215,10 +215,10 @@ def framings(pl):
     return out
 
 
-def nested_blob_templates(alg):
-    """Host-key blob and signature blob of `alg` as field lists, so that their
-    inner fields can be mutated too."""
-    k = keys.hostkey_for(alg)
+def nested_blob_templates(alg, key=None, sigblob=None):
+    """Public-key blob and signature blob (of the host key for `alg`, or of
+    `key`/`sigblob`) as field lists, so that their inner fields can be mutated too."""
+    k = key or keys.hostkey_for(alg)
     m = Message(k.asbytes())
     name = m.get_text()
     if name == "ssh-ed25519":
@@ -227,14 +227,14 @@ def nested_blob_templates(alg):
         hk = [g.F("alg", "text", name), g.F("e", "mpint", m.get_mpint()), g.F("n", "mpint", m.get_mpint())]
     else:
         hk = [g.F("alg", "text", name), g.F("curve", "text", m.get_text()), g.F("point", "str", m.get_binary())]
-    s = Message(rawpeer.sig_blob(alg))
+    s = Message(sigblob or rawpeer.sig_blob(alg))
     sname = s.get_text()
     sg = [g.F("alg", "text", sname), g.F("sig", "str", s.get_binary())]
     return g.T("hostkey-blob:" + name, 0, hk), g.T("sig-blob:" + sname, 0, sg)
 
 
-def ecdsa_inner_sig_template(alg):
-    s = Message(rawpeer.sig_blob(alg))
+def ecdsa_inner_sig_template(alg, sigblob=None):
+    s = Message(sigblob or rawpeer.sig_blob(alg))
     s.get_text()
     inner = Message(s.get_binary())
     return g.T("ecdsa-sig-inner", 0, [g.F("r", "mpint", inner.get_mpint()), g.F("s", "mpint", inner.get_mpint())])
@@ -648,6 +648,7 @@ class Sess:
             if self.cfg.get("comp"):
                 so.compression = (self.cfg["comp"],)
         self.rc = self.sc = 0
+        self._env = None
 
     def start(self):
         a = self.a
@@ -676,7 +677,15 @@ class Sess:
         return True
 
     def env(self):
-        e = pk_env(self.att, self.key)
+        if self._env is None:
+            e = pk_env(self.att, self.key)
+            pks = []
+            for i in range(3):
+                k = pk_env(self.att, user_key(i))
+                pks.append((k["pk_alg"], k["pk_blob"], k["pk_sig"]))
+            e["pks"] = pks
+            self._env = e
+        e = dict(self._env)
         e.update(rc=self.rc, sc=self.sc)
         return e
 
@@ -857,6 +866,8 @@ class PostStage:
         """Enumerate (template x mutation) lazily; payloads are built per
         session because channel numbers / signatures depend on it."""
         probe_env = dict(pk_alg="ssh-ed25519", pk_blob=b"k" * 51, pk_sig=b"s" * 83, rc=0, sc=0)
+        probe_env["pks"] = [(k.get_name() if "rsa" not in k.get_name() else "rsa-sha2-512", b"k" * 51, b"s" * 83)
+                            for k in (user_key(0), user_key(1), user_key(2))]
         names = [t.name for t in tmpl_fn(probe_env)]
         for ti, tname in enumerate(names):
             labels = [l for l, _ in g.mutants(tmpl_fn(probe_env)[ti], self.rng)]
@@ -869,6 +880,42 @@ class PostStage:
                     return dict(g.mutants(tm, self.rng)).get(label) or g.payload(tm)
 
                 yield (stage, role, auth, chan, label), label, mk
+
+    def nested_pk_items(self, stage):
+        """USERAUTH_REQUEST publickey whose *inner* key blob / signature blob fields are mutated
+        (the server parses both with the key classes)."""
+        for ki in range(3):
+            key = user_key(ki)
+            alg = key.get_name() if "rsa" not in key.get_name() else "rsa-sha2-512"
+            dummy_sig = key.sign_ssh_data(b"x", alg).asbytes()
+            hk_t, sig_t = nested_blob_templates(alg, key, dummy_sig)
+            inner = [("blob", hk_t), ("sig", sig_t)]
+            if alg.startswith("ecdsa"):
+                inner.append(("sig-inner", ecdsa_inner_sig_template(alg, dummy_sig)))
+            for which, tmpl in inner:
+                for label in [l for l, _ in g.mutants(tmpl, self.rng)]:
+                    if not self.mine(core=op_of(label) in CORE_OPS_KEX, frac=0.08):
+                        continue
+
+                    def mk(env, ki=ki, which=which, label=label, alg=alg, key=key):
+                        kalg, kblob, ksig = env["pks"][ki]
+                        hk2, sig2 = nested_blob_templates(alg, key, ksig)
+                        t2 = dict(blob=hk2, sig=sig2)
+                        if which == "sig-inner":
+                            t2["sig-inner"] = ecdsa_inner_sig_template(alg, ksig)
+                        mut = dict(g.mutants(t2[which], self.rng)).get(label, b"\x00")[1:]
+                        if which == "blob":
+                            kblob = mut
+                        elif which == "sig":
+                            ksig = mut
+                        else:
+                            ksig = g.sstr(alg) + g.sstr(mut)
+                        return g.build(50, [g.F("user", "text", "u"), g.F("service", "text", "ssh-connection"),
+                                            g.F("method", "text", "publickey"), g.F("has_sig", "bool", True),
+                                            g.F("alg", "text", kalg), g.F("blob", "str", kblob), g.F("sig", "str", ksig)])
+
+                    lab = "userauth-request:publickey-nested-%s/%s" % (which, label)
+                    yield (stage, "S", False, False, lab), lab, mk
 
     def sweep_items(self, stage, role, auth, chan):
         for pt in list(range(0, 101)) + [101, 110, 127, 128, 192, 254, 255]:
@@ -903,6 +950,7 @@ class PostStage:
             ("unauth", "C", False, False, client_pre),
             ("authed", "C", True, True, client_authed),
         ]
+        self.inject_stream("unauth", "S", False, False, self.nested_pk_items("unauth"))
         for stage, role, auth, chan, fn in plan:
             self.inject_stream(stage, role, auth, chan, self.tmpl_items(stage, role, auth, chan, fn))
             self.inject_stream(stage, role, auth, chan, self.sweep_items(stage, role, auth, chan))
@@ -911,7 +959,7 @@ class PostStage:
     def run_client_auth(self):
         ctx, rng = self.ctx, self.rng
         apis = ("auth_password", "auth_publickey", "auth_interactive", "auth_none", "auth_publickey_rsa",
-                "auth_interactive_dumb", "srt_auth_password", "srt_auth_publickey")
+                "auth_interactive_dumb", "srt_auth_password", "srt_auth_publickey", "srt_auth_publickey_rsa")
         probe_env = dict(pk_alg="ssh-ed25519", pk_blob=b"k" * 51, pk_sig=b"s" * 83)
         accept_valid = g.payload(g.t_service("accept")[0])
         ext_valid = g.payload(g.t_ext_info()[0])
@@ -920,16 +968,20 @@ class PostStage:
             # phase 1: mutated SERVICE_ACCEPT / EXT_INFO first, valid auth reply after
             # phase 2: valid accept, mutated reply to USERAUTH_REQUEST (and to INFO_RESPONSE)
             cases = []
-            if not srt:
-                for tm_i, tm in enumerate(g.t_service("accept")[:1] + g.t_ext_info()):
-                    for li, (label, _) in enumerate(g.mutants(tm, rng)):
-                        cases.append(("first", tm_i, li, label))
+            for tm_i, tm in enumerate(g.t_service("accept")[:1] + g.t_ext_info()):
+                if srt and tm.ptype == 6:
+                    # ServiceRequestingTransport never returns from auth_* unless a well-formed
+                    # SERVICE_ACCEPT arrives (a C13 matter): only EXT_INFO is mutated for it
+                    continue
+                for li, (label, _) in enumerate(g.mutants(tm, rng)):
+                    cases.append(("first", tm_i, li, label))
             reps = g.t_userauth_replies(probe_env)
             for tm_i, tm in enumerate(reps):
                 for li, (label, _) in enumerate(g.mutants(tm, rng)):
                     cases.append(("reply", tm_i, li, label))
             for phase, tm_i, li, label in cases:
-                if not self.mine(core=(op_of(label) == "badutf8.0" and api in apis[:3]), frac=0.035):
+                if not self.mine(core=(op_of(label) == "badutf8.0" and (api in apis[:3] or (srt and phase == "first"))),
+                                 frac=0.035):
                     continue
                 desc = ("auth-api", "C", api, phase, label)
                 sess = self.new_sess("C", False, False, victim_cls=WSRT if srt else W, keyn=self.idx)
